@@ -35,6 +35,9 @@ F_STAR = 'empty-requirement-accepts-prerelease'       # "*" / "" accept pre-rele
 FLAGS = [F_LEPRE, F_LENEXT, F_STAR, F_NUM1, F_SPLIT]     # defects still present first: a point explained by several models is filed under the first
 
 
+K_XWILD = 'C20:req:x-wildcard-not-read-as-wildcard'     # 1.x / 1.2.X / x: the * spelling is right, the x spelling is not
+
+
 def ident(x):
     return int(x) if x.isdigit() else x
 
@@ -284,7 +287,7 @@ def ref_parse_req(text):
         return out
     for part in text.split(','):
         part = part.strip()
-        if part == '*':
+        if part in ('*', 'x', 'X'):
             continue
         op = None
         for o in ('>=', '<=', '^', '~', '=', '>', '<'):
@@ -294,8 +297,8 @@ def ref_parse_req(text):
         bare = op is None
         vs, _, pre = part.partition('-')
         comps = vs.split('.')
-        if op is None and '*' in comps:
-            comps = [x for x in comps if x != '*']
+        if op is None and any(x in ('*', 'x', 'X') for x in comps):
+            comps = [x for x in comps if x not in ('*', 'x', 'X')]
             out.append(Cmp('w', [int(x) for x in comps]))
             continue
         out.append(Cmp(op or '^', [int(x) for x in comps], pre, bare=bare))
@@ -342,6 +345,13 @@ def build_comparators(dom, predom):
         for t, pre in predom:
             out.append(Cmp(sp or '^', t, pre, text=sp + '.'.join(map(str, t)) + '-' + pre, bare=not sp))
     return out
+
+
+def comparators_of(ck):
+    dom = ck.q([0, 1, 2], [0, 1, 2, 3])
+    predom = [((1, 0, 0), 'alpha'), ((1, 0, 0), 'alpha.1'), ((1, 0, 0), '1'), ((1, 0, 0), '2'), ((0, 0, 0), 'alpha'),
+              ((0, 1, 0), 'beta'), ((1, 2, 0), 'rc.1')]
+    return build_comparators(dom, predom)
 
 
 COMPS = []      # comparators
@@ -401,6 +411,8 @@ def req_single_worker(i):
             texts.append(o + ' ' + c.text[len(o):])
             texts.append(' ' + c.text + ' ')
             break
+    if c.op == 'w':
+        texts += [c.text.replace('*', 'x'), c.text.replace('*', 'X')]      # the semver crate's other two wildcard characters
     exp = masks_for([i])
     for t in texts:
         m, err = run_req(t, [i])
@@ -464,10 +476,7 @@ def part_req(ck, classes):
                 ck.require(e is want, 'reference model disagrees with pinned cargotests: %r on %r: model %r, pinned %r' % (req, v, e, want))
     ck.part('pinned_table', cases=len(pinned), points_agreeing=npin, points_unspecified=nskip)
 
-    dom = ck.q([0, 1, 2], [0, 1, 2, 3])
-    predom = [((1, 0, 0), 'alpha'), ((1, 0, 0), 'alpha.1'), ((1, 0, 0), '1'), ((1, 0, 0), '2'), ((0, 0, 0), 'alpha'),
-              ((0, 1, 0), 'beta'), ((1, 2, 0), 'rc.1')]
-    COMPS = build_comparators(dom, predom)
+    COMPS = comparators_of(ck)
     vdom = ck.q([0, 1, 2, 3], [0, 1, 2, 3, 4])
     rel = ['%d.%d.%d' % t for t in itertools.product(vdom, repeat=3)]
     rel += ['1', '1.0', '0', '0.1', '2.1', '3', '1.0.0+build.5', '1.2.0+a-b.7', '0.0.0+0']
@@ -497,14 +506,14 @@ def part_req(ck, classes):
 
     viol_calls = {}
 
-    def report(cs_idx, text, d, m):
+    def report(cs_idx, text, d, m, key_override=None):
         cs = [COMPS[k] for k in cs_idx]
         while d:
             low = d & -d
             k = low.bit_length() - 1
             d ^= low
             got = bool((m >> k) & 1)
-            key = classify_req(cs, VERS[k], got)
+            key = key_override or classify_req(cs, VERS[k], got)
             viol_calls[key] = viol_calls.get(key, 0) + 1
             if viol_calls[key] <= 40:
                 ck.violation(key, 'cargo_parse(%r)(%r) = %r, Cargo rule says %r' % (text, VERS[k], got, not got),
@@ -517,39 +526,46 @@ def part_req(ck, classes):
                     ck.n_viol += 1
 
     # ---- singles (every comparator, with spacing variants) + the empty requirement and '*' ----
-    evals = skipped = nreq = 0
+    evals = skipped = nreq = nxw = 0
     pre_rejected = pre_accepted = 0
-    for text in ('', '*', ' * '):
+    star_ok = True
+    for text in ('', '*', ' * ', 'x', 'X'):
         m, err = run_req(text, [])
         nreq += 1
         if err:
-            ck.violation('C20:req:exception', '%r: %s' % (text, err), {'kind': 'req', 'req': text, 'version': VERS[0]})
+            ck.violation(K_XWILD if text in ('x', 'X') else 'C20:req:exception', '%r: %s' % (text, err), {'kind': 'req', 'req': text, 'version': VERS[0]})
             continue
         e = RELBITS
         evals += len(VERS)
         d = m ^ e
         if d:
-            report([], text, d, m)
+            report([], text, d, m, K_XWILD if text in ('x', 'X') and star_ok else None)
+            star_ok = star_ok and text in ('x', 'X')
         classes.add(('req', 'any', True))
         classes.add(('req', 'any-prerelease', False))
     for i, exp, res in pmap(req_single_worker, range(len(COMPS)), chunksize=4):
         ck.require(exp is not None, 'model self-check failed for %s' % COMPS[i].text)
         e, spec = exp
+        star_ok = True
         for text, m, err in res:
             nreq += 1
+            xw = COMPS[i].op == 'w' and text != COMPS[i].text and star_ok      # x / X spelling of a wildcard whose * spelling is right
+            nxw += COMPS[i].op == 'w' and text != COMPS[i].text
             if err:
-                ck.violation('C20:req:exception', '%r: %s' % (text, err), {'kind': 'req', 'req': text, 'version': VERS[0]})
+                ck.violation(K_XWILD if xw else 'C20:req:exception', '%r: %s' % (text, err), {'kind': 'req', 'req': text, 'version': VERS[0]})
                 continue
             evals += bin(spec).count('1')
             skipped += len(VERS) - bin(spec).count('1')
             d = (m ^ e) & spec
             if d:
-                report([i], text, d, m)
+                report([i], text, d, m, K_XWILD if xw else None)
+                star_ok = star_ok and text != COMPS[i].text
         c = COMPS[i]
         classes.add(('req', c.cls(), 'accepts-some' if e & RELBITS else 'accepts-none'))
         pre_accepted += bin(e & spec & PREBITS).count('1')
         pre_rejected += bin(~e & spec & PREBITS).count('1')
-    ck.part('req_singles', comparators=len(COMPS), requirement_strings=nreq, versions=len(VERS), releases=len(rel),
+    ck.require(nxw >= 20, 'x / X wildcard spellings not generated')
+    ck.part('req_singles', comparators=len(COMPS), requirement_strings=nreq, x_wildcard_spellings=nxw + 2, versions=len(VERS), releases=len(rel),
             prereleases=len(prev), evaluations=evals, skipped_unspecified=skipped,
             prerelease_points_expected_accept=pre_accepted, prerelease_points_expected_reject=pre_rejected)
     ck.sample({'req': COMPS[40].text, 'accepted': [VERS[k] for k in range(len(VERS)) if (SM[40] >> k) & 1][:6]})
@@ -610,6 +626,459 @@ def part_req(ck, classes):
     ck.part('req_multidigit', comparators=len(md), versions=len(mdv), evaluations=me)
     total += me
     return total, total_skipped
+
+
+# =====================================================================================================
+# Part 1b: the objects through which meson asks (explicit state)
+# =====================================================================================================
+# cargo_parse(req)(version) is not what the cargo interpreter calls: it asks manifest.Dependency.accepts_version (a value
+# memoised on the object, like Dependency.api) and replaces the requirement of a live object with update_version()
+# ('=<locked version>' after a look at Cargo.lock).  "Acceptance equals Cargo's rule" holds for the requirement the object
+# has NOW, whatever was read from it before.
+#  dep   every operation sequence up to the depth bound over {read accepts_version (on a version list), read api,
+#        update_version(r) for every r of a requirement set} x every initial requirement x every way the manifest loader
+#        builds the object (string, table, inherited from the workspace as a table / a string, no version at all), each
+#        on a fresh object; every read compared with the reference matcher for the current requirement (api: with the
+#        rule documented in version.api for these requirements, and with what a fresh object of that requirement says).
+#  lock  Interpreter._resolve_package / _dep_package on a Cargo.lock (read by the real loader) holding every non-empty
+#        subset of a version set, in several file orders, x every comparator: "the most recent satisfying the constraints"
+#        = the highest version in SemVer order that the reference matcher accepts; after _dep_package the dependency is
+#        pinned to that version and answers for the pinned requirement; a second visit changes nothing.
+DEP_REQS = ['1.2', '~1.2', '>=1.0, <1.4', '=1.2.3', '=1.3.0', '0.3', '*', '^1.0.0-alpha']
+DEP_VERS = ['0.3.1', '0.4.0', '1.0.0', '1.2.0', '1.2.3', '1.3.0', '1.3.9', '1.4.0', '2.0.0', '1.0.0-alpha', '1.2.3-rc.1', '1.0.0-alpha.1']
+DEP_API = {'1.2': '1', '~1.2': '1', '>=1.0, <1.4': '1', '=1.2.3': '1', '=1.3.0': '1', '0.3': '0.3', '*': '', '^1.0.0-alpha': '1', '': ''}
+DEP_FORMS = ['string', 'table', 'workspace-table', 'workspace-string']
+K_STALE = 'C20:dep:accepts-version-answers-for-an-earlier-requirement'
+K_STALE_API = 'C20:dep:api-answers-for-an-earlier-requirement'
+DEP_EXP = {}          # requirement -> (expected-accept mask, specified mask) over DEP_VERS
+DEP_R = []            # the requirement set of this tier
+DEP_DEPTH = 0
+
+
+def ref_masks(req, vers):
+    cs = ref_parse_req(req)
+    e = spec = 0
+    for k, v in enumerate(vers):
+        x = expected(cs, v)
+        if x is not None:
+            spec |= 1 << k
+            if x:
+                e |= 1 << k
+    return e, spec
+
+
+def make_dep(form, req):
+    """A Dependency the way Manifest.from_raw makes it: Dependency.from_raw(name, raw value, member path, workspace)."""
+    from mesonbuild.cargo.manifest import Dependency, Workspace
+    if form == 'string':
+        return Dependency.from_raw('foo', req)
+    if form == 'table':
+        return Dependency.from_raw('foo', {'version': req, 'features': ['f']})
+    if form == 'workspace-table':
+        return Dependency.from_raw('foo', {'workspace': True}, '', Workspace(dependencies={'foo': {'version': req}}))
+    if form == 'workspace-string':
+        return Dependency.from_raw('foo', {'workspace': True, 'optional': True}, '', Workspace(dependencies={'foo': req}))
+    if form == 'unversioned':
+        return Dependency.from_raw('foo', {'path': '../foo'})
+    raise AssertionError(form)
+
+
+def dep_read_accepts(dep, vers):
+    """-> (mask, None) | (None, error)"""
+    try:
+        f = dep.accepts_version
+    except Exception as e:  # noqa
+        return None, 'accepts_version raised %s: %s' % (type(e).__name__, e)
+    m = 0
+    for k, v in enumerate(vers):
+        try:
+            r = f(v)
+        except Exception as e:  # noqa
+            return None, 'accepts_version(%r) raised %s: %s' % (v, type(e).__name__, e)
+        if r is True:
+            m |= 1 << k
+        elif r is not False:
+            return None, 'accepts_version(%r) returned non-bool %r' % (v, r)
+    return m, None
+
+
+def dep_read_api(dep):
+    try:
+        return ('val', dep.api)
+    except MesonException:
+        return ('raise', None)
+    except Exception as e:  # noqa
+        return ('exc', type(e).__name__)
+
+
+def dep_accepts_key(cur, earlier, m, vers):
+    """Class of a wrong accepts_version answer m for requirement cur (earlier = the requirements the object had before)."""
+    e, spec = ref_masks(cur, vers)
+    for old in earlier:
+        eo, so = ref_masks(old, vers)
+        if old != cur and (eo ^ e) & spec & so and not (m ^ eo) & so:
+            return K_STALE                                  # exactly what an earlier requirement of this object accepts
+    try:
+        f = impl_accepts(cur)
+        for k, v in enumerate(vers):
+            if (spec >> k) & 1 and f(v) is not bool((e >> k) & 1):
+                return classify_req(ref_parse_req(cur), v, f(v))      # the matcher itself is wrong: the req family's class
+    except Exception:  # noqa
+        pass
+    return 'C20:dep:accepts-version-differs-from-cargo-parse'
+
+
+def dep_run(form, r0, ops, vers=None):
+    """One history on a fresh object.  -> (list of (step, key, text), stats dict, log)"""
+    vers = vers or DEP_VERS
+    dep = make_dep(form, r0)
+    cur, earlier = r0, []
+    cached = [False, False]                      # what has been read since the last update: [accepts_version, api]
+    at_update = None
+    bad, log = [], []
+    st = {'ops': 0, 'reads_accepts': 0, 'reads_api': 0, 'updates': 0, 'evaluations': 0, 'skipped': 0}
+    for step, op in enumerate(ops):
+        st['ops'] += 1
+        if op[0] == 'upd':
+            at_update = (cached[0], cached[1]) if op[1] != cur else at_update
+            dep.update_version(op[1])
+            if op[1] != cur:
+                earlier.append(cur)
+            cur = op[1]
+            cached = [False, False]
+            st['updates'] += 1
+            log.append('update_version(%r)' % cur)
+            if dep.version != cur:
+                bad.append((step, 'C20:dep:update-version-not-stored', 'version is %r after update_version(%r)' % (dep.version, cur)))
+        elif op[0] == 'acc':
+            e, spec = ref_masks(cur, vers) if vers is not DEP_VERS or cur not in DEP_EXP else DEP_EXP[cur]
+            m, err = dep_read_accepts(dep, vers)
+            st['reads_accepts'] += 1
+            cached[0] = True
+            if at_update is not None:
+                st['accepts_after_update:%s' % ('matcher+api' if all(at_update) else 'matcher-only' if at_update[0] else
+                                                'api-only' if at_update[1] else 'nothing-read')] = 1
+            if err:
+                bad.append((step, 'C20:dep:exception', 'requirement %r: %s' % (cur, err)))
+                log.append('accepts_version: ' + err)
+                continue
+            n = bin(spec).count('1')
+            st['evaluations'] += n
+            st['skipped'] += len(vers) - n
+            d = (m ^ e) & spec
+            log.append('accepts_version accepts %s; Cargo rule for %r: %s' % ([v for k, v in enumerate(vers) if (m >> k) & 1], cur,
+                                                                             [v for k, v in enumerate(vers) if (e >> k) & 1]))
+            if d:
+                k = (d & -d).bit_length() - 1
+                bad.append((step, dep_accepts_key(cur, earlier, m, vers),
+                            'requirement %r now %r: accepts_version(%r) = %r, Cargo rule says %r' % (r0, cur, vers[k], bool((m >> k) & 1),
+                                                                                                    bool((e >> k) & 1))))
+        else:
+            r = dep_read_api(dep)
+            st['reads_api'] += 1
+            st['evaluations'] += 1
+            cached[1] = True
+            log.append('api = %r' % (r,))
+            want = DEP_API.get(cur)
+            fresh = dep_read_api(make_dep('string', cur)) if cur else dep_read_api(make_dep('unversioned', ''))
+            if r[0] == 'exc':
+                bad.append((step, 'C20:dep:api-raises-' + r[1], 'requirement %r now %r: reading api raises %s' % (r0, cur, r[1])))
+            elif want is not None and r != ('val', want):
+                stale = any(DEP_API.get(o) not in (None, want) and r == ('val', DEP_API[o]) for o in earlier)
+                bad.append((step, K_STALE_API if stale and fresh == ('val', want) else 'C20:dep:api',
+                            'requirement %r now %r: api = %r, documented rule says %r' % (r0, cur, r, want)))
+            elif r != fresh:
+                bad.append((step, 'C20:dep:api-depends-on-history', 'requirement %r now %r: api = %r, on a fresh object %r' % (r0, cur, r, fresh)))
+    return bad, st, log
+
+
+def dep_worker(arg):
+    form, r0, first = arg
+    ops_all = [('acc',), ('api',)] + [('upd', r) for r in DEP_R]
+    tot = {}
+    out, cnt = [], {}
+    nseq = 0
+    if first is None:
+        seqs = [()]
+    else:
+        seqs = ((first,) + rest for n in range(DEP_DEPTH) for rest in itertools.product(ops_all, repeat=n))
+    for ops in seqs:
+        nseq += 1
+        bad, st, _ = dep_run(form, r0, ops)
+        for k, v in st.items():
+            tot[k] = tot.get(k, 0) + v
+        for step, key, text in bad:
+            cnt[key] = cnt.get(key, 0) + 1
+            if cnt[key] <= 3:
+                out.append((key, text, [list(o) for o in ops[:step + 1]]))
+            break                                              # the first wrong step of a history; the rest follows from it
+    tot['histories'] = nseq
+    return form, r0, out, cnt, tot
+
+
+def report_family(ck, listed, key, what, replay, n=1):
+    """n points of class key; list at most 12 of a class, count the rest."""
+    listed[key] = listed.get(key, 0) + 1
+    if listed[key] <= 12:
+        ck.violation(key, what, replay)
+        n -= 1
+    if n > 0:
+        if any(kf['key'] == key and kf.get('status') == 'known' for kf in ck.known):
+            ck.add('known_finding_points_beyond_listing_cap', n)
+        else:
+            ck.n_viol += n
+
+
+def part_dep(ck, classes):
+    global DEP_R, DEP_DEPTH
+    DEP_R = DEP_REQS[:ck.q(6, 8)]
+    DEP_DEPTH = ck.q(4, 5)
+    for r in DEP_R + ['']:
+        DEP_EXP[r] = ref_masks(r, DEP_VERS)
+        ck.require(r in DEP_API, 'no documented api for %r' % r)
+    for a, b in itertools.combinations(DEP_R + [''], 2):
+        (ea, sa), (eb, sb) = DEP_EXP[a], DEP_EXP[b]
+        ck.require((ea ^ eb) & sa & sb, 'requirements %r and %r accept the same versions of the list: a stale matcher would not show' % (a, b))
+    ops_all = [('acc',), ('api',)] + [('upd', r) for r in DEP_R]
+    starts = [(f, r) for f in DEP_FORMS for r in DEP_R] + [('unversioned', '')]
+    items = [(f, r, first) for f, r in starts for first in [None] + ops_all]
+    tot, listed = {}, {}
+    for form, r0, out, cnt, st in pmap(dep_worker, items, chunksize=2):
+        for k, v in st.items():
+            tot[k] = tot.get(k, 0) + v
+        nl = {}
+        for key, text, ops in out:
+            nl[key] = nl.get(key, 0) + 1
+            report_family(ck, listed, key, '%s dependency, after %s: %s' % (form, ' ; '.join(o[0] if len(o) == 1 else 'update_version(%r)' % o[1]
+                                                                                             for o in ops), text),
+                          {'kind': 'dep', 'form': form, 'initial': r0, 'ops': ops})
+        for key, n in cnt.items():
+            if n > nl.get(key, 0):
+                report_family(ck, {key: 10 ** 9}, key, '', {}, n - nl.get(key, 0))
+    # every comparator on a fresh object: the two memoised values can be read at all (api: a value or a MesonException)
+    nfresh = 0
+    for c in (COMPS or comparators_of(ck)):
+        for form in ('string', 'workspace-table'):
+            dep = make_dep(form, c.text)
+            nfresh += 1
+            r = dep_read_api(dep)
+            if r[0] == 'exc':
+                report_family(ck, listed, 'C20:dep:api-raises-' + r[1], '%s dependency with requirement %r: reading api raises %s' % (form, c.text, r[1]),
+                              {'kind': 'dep', 'form': form, 'initial': c.text, 'ops': [['api']]})
+            m, err = dep_read_accepts(dep, DEP_VERS[:1])
+            if err:
+                report_family(ck, listed, 'C20:dep:exception', '%s dependency with requirement %r: %s' % (form, c.text, err),
+                              {'kind': 'dep', 'form': form, 'initial': c.text, 'ops': [['acc']]})
+    ck.part('dep_histories', fresh_objects_every_comparator=nfresh)
+    states = {k[len('accepts_after_update:'):]: v for k, v in tot.items() if k.startswith('accepts_after_update:')}
+    ck.part('dep_histories', requirements=DEP_R, versions=len(DEP_VERS), forms=DEP_FORMS + ['unversioned'], depth=DEP_DEPTH,
+            operations=len(ops_all), histories=tot['histories'], operations_run=tot['ops'], reads_accepts_version=tot['reads_accepts'],
+            reads_api=tot['reads_api'], updates=tot['updates'], evaluations=tot['evaluations'], skipped_unspecified=tot['skipped'],
+            histories_reading_accepts_after_an_update_by_what_was_read_before_it=states, wall_s=round(time.time() - ck.t0, 1))
+    ck.require(all(states.get(k, 0) > 0 for k in ('nothing-read', 'matcher-only', 'api-only', 'matcher+api')),
+               'a cache state before update_version is never followed by a read: %r' % states)
+    ck.require(tot['histories'] == len(starts) * sum(len(ops_all) ** n for n in range(DEP_DEPTH + 1)), 'history count')
+    for k, v in states.items():
+        classes.add(('dep', k, v > 0))
+    ck.sample({'dep_history': ['1.2', 'accepts_version', "update_version('=1.2.3')", 'accepts_version'],
+               'expected_accepts': [v for k, v in enumerate(DEP_VERS) if (DEP_EXP['=1.2.3'][0] >> k) & 1]})
+    return tot['evaluations'], tot['skipped']
+
+
+# ---- Cargo.lock: the most recent version satisfying the requirement ------------------------------------------------
+LOCK_VERS = ['0.1.2', '1.0.0-alpha', '1.0.0', '1.2.1', '1.9.0', '1.10.0', '2.0.0', '0.0.1', '2.0.0-alpha']     # ascending for the first 7
+LOCK_N = 0
+LOCK_REQS = []        # (text, accept mask, specified mask over LOCK_VERS[:LOCK_N])
+LOCK_RANK = []        # LOCK_RANK[k] = position of LOCK_VERS[k] in SemVer order
+LOCK_DIR = None
+FOREIGN = '7.7.7'     # version of the package that the (stub) package table returns
+
+
+class _Packages(dict):
+    """Interpreter.packages with every (name, api) present: what is fetched for a key is not what this check looks at."""
+    def get(self, key, default=None):
+        import types
+        if key not in self:                  # one package whatever the api: the same crate is behind every key
+            self[key] = self.setdefault(None, types.SimpleNamespace(manifest=types.SimpleNamespace(package=types.SimpleNamespace(name='foo', version=FOREIGN))))
+        return self[key]
+
+
+def write_lock(path, order):
+    """Cargo.lock as cargo writes it: the crate under test and another crate that has every version."""
+    out = ['# This file is automatically @generated by Cargo.', 'version = 3', '']
+    for name, vs in (('bar', range(LOCK_N)), ('foo', order)):
+        for k in vs:
+            out += ['[[package]]', 'name = "%s"' % name, 'version = "%s"' % LOCK_VERS[k],
+                    'source = "registry+https://github.com/rust-lang/crates.io-index"', 'checksum = "%064x"' % (k + 1), '']
+    with open(path, 'w') as f:
+        f.write('\n'.join(out))
+
+
+def lock_orders(sub):
+    asc = sorted(sub, key=lambda k: LOCK_RANK[k])
+    res = [asc, asc[::-1], asc[1:] + asc[:1]]
+    out = []
+    for o in res:
+        if o not in out:
+            out.append(o)
+    return out
+
+
+def best_of(sub_mask, acc):
+    ks = [k for k in range(LOCK_N) if ((sub_mask & acc) >> k) & 1]
+    return max(ks, key=lambda k: LOCK_RANK[k]) if ks else None
+
+
+def lock_case(interp, order, text, acc, spec, want_log=False):
+    """One requirement against one loaded Cargo.lock.  -> [(key, what)], evaluations, log"""
+    from mesonbuild.cargo.interpreter import PackageConfiguration
+    from mesonbuild.mesonlib import MachineChoice
+    vers = LOCK_VERS[:LOCK_N]
+    sub = sum(1 << k for k in order)
+    bad, log = [], []
+    pick = best_of(sub, acc)
+    want = vers[pick] if pick is not None else None
+    # the matcher itself on the versions of this lock (a wrong answer here is the req family's finding, not a new one)
+    f = impl_accepts(text)
+    for k in order:
+        if f(vers[k]) is not bool((acc >> k) & 1):
+            return [(classify_req(ref_parse_req(text), vers[k], f(vers[k])), 'cargo_parse(%r)(%r) = %r' % (text, vers[k], f(vers[k])))], 1, log
+    # 1. _resolve_package with the matcher of a dependency object
+    dep = make_dep('string', text) if text else make_dep('unversioned', '')
+    got = interp._resolve_package('foo', dep.accepts_version)
+    gv = got.version if got is not None else None
+    log.append('_resolve_package: %r, the most recent accepted by the Cargo rule is %r' % (gv, want))
+    if got is not None and got.name != 'foo':
+        bad.append(('C20:lock:resolve-other-crate', 'resolved %s %s for foo' % (got.name, gv)))
+    elif gv != want:
+        if gv is None:
+            key = 'C20:lock:resolve-misses-accepted-version'
+        elif gv not in vers or not (acc >> vers.index(gv)) & 1:
+            key = 'C20:lock:resolve-picks-rejected-version'
+        else:
+            key = 'C20:lock:resolve-not-most-recent'
+        bad.append((key, 'Cargo.lock has foo %s: requirement %r resolved to %r, the most recent version that satisfies it is %r' % (
+            [vers[k] for k in order], text, gv, want)))
+    if interp._resolve_package('baz', dep.accepts_version) is not None:
+        bad.append(('C20:lock:resolve-other-crate', 'a crate that is not in Cargo.lock was resolved'))
+    # 2. the interpreter's own sequence (_dep_package: look in Cargo.lock, pin, fetch), then ask the pinned dependency
+    dep = make_dep('table', text) if text else make_dep('unversioned', '')
+    dep.path = None
+    cfg = PackageConfiguration(for_machine=MachineChoice.HOST)
+    n = 2
+    for visit in (1, 2):
+        try:
+            interp._dep_package(None, dep, cfg)
+        except Exception as e:  # noqa
+            fresh = dep_read_api(make_dep('string', dep.version)) if dep.version else ('val', '')
+            if fresh[0] == 'exc' and fresh[1] == type(e).__name__:
+                key = 'C20:dep:api-raises-' + fresh[1]                 # not this sequence: reading api of such a requirement fails by itself
+            else:
+                key = 'C20:lock:dep-package-exception'
+            bad.append((key, 'requirement %r, visit %d of _dep_package: %s: %s' % (text, visit, type(e).__name__, e)))
+            return bad, n, log
+        pinned = '=' + (want if want is not None else FOREIGN) if (want is not None or not text) else text
+        log.append('visit %d: requirement is now %r, expected %r' % (visit, dep.version, pinned))
+        if dep.version != pinned:
+            bad.append(('C20:lock:dependency-not-pinned-to-resolved-version', 'Cargo.lock has foo %s: after visit %d of _dep_package the requirement %r '
+                        'became %r, expected %r' % ([vers[k] for k in order], visit, text, dep.version, pinned)))
+            return bad, n, log
+        allv = vers + [FOREIGN]
+        e, sp = ref_masks(pinned, allv)
+        m, err = dep_read_accepts(dep, allv)
+        n += bin(sp).count('1')
+        if err:
+            bad.append(('C20:dep:exception', 'requirement %r: %s' % (pinned, err)))
+            return bad, n, log
+        log.append('  accepts_version accepts %s; Cargo rule for %r: %s' % ([v for k, v in enumerate(allv) if (m >> k) & 1], pinned,
+                                                                           [v for k, v in enumerate(allv) if (e >> k) & 1]))
+        d = (m ^ e) & sp
+        if d:
+            k = (d & -d).bit_length() - 1
+            bad.append((dep_accepts_key(pinned, [text], m, allv), 'Cargo.lock has foo %s: requirement %r pinned to %r by _dep_package (visit %d): '
+                        'accepts_version(%r) = %r, Cargo rule says %r' % ([vers[k2] for k2 in order], text, pinned, visit, allv[k], bool((m >> k) & 1),
+                                                                         bool((e >> k) & 1))))
+            return bad, n, log
+        a, fresh = dep_read_api(dep), dep_read_api(make_dep('string', pinned))
+        if a != fresh:
+            bad.append(('C20:dep:api-depends-on-history', 'requirement %r pinned to %r by _dep_package: api = %r, on a fresh object %r' % (text, pinned, a, fresh)))
+            return bad, n, log
+    return bad, n, log
+
+
+def load_lock(order, tag):
+    from mesonbuild.cargo.interpreter import Interpreter, load_cargo_lock
+    d = os.path.join(LOCK_DIR, tag)
+    os.makedirs(d, exist_ok=True)
+    write_lock(os.path.join(d, 'Cargo.lock'), order)
+    interp = Interpreter.__new__(Interpreter)
+    interp.cargolock = load_cargo_lock(os.path.join(d, 'Cargo.lock'), os.path.join(d, 'subprojects'))
+    interp.packages = _Packages()
+    interp.subprojects_dir = 'subprojects'
+    return interp
+
+
+def lock_worker(sub):
+    out, cnt = [], {}
+    st = {'locks': 0, 'cases': 0, 'skipped_cases': 0, 'evaluations': 0, 'resolved': 0, 'unresolved': 0, 'newest_rejected': 0}
+    ks = [k for k in range(LOCK_N) if (sub >> k) & 1]
+    top = max(ks, key=lambda k: LOCK_RANK[k])
+    for no, order in enumerate(lock_orders(ks)):
+        interp = load_lock(order, '%d-%d' % (sub, no))
+        st['locks'] += 1
+        for text, acc, spec in LOCK_REQS:
+            if sub & ~spec:
+                st['skipped_cases'] += 1            # a version of this lock is an unspecified point of the requirement
+                continue
+            st['cases'] += 1
+            pick = best_of(sub, acc)
+            st['resolved' if pick is not None else 'unresolved'] += 1
+            st['newest_rejected'] += pick is not None and pick != top
+            bad, n, _ = lock_case(interp, order, text, acc, spec)
+            st['evaluations'] += n
+            for key, what in bad[:1]:
+                cnt[key] = cnt.get(key, 0) + 1
+                if cnt[key] <= 3:
+                    out.append((key, what, order, text))
+    return out, cnt, st
+
+
+def part_lock(ck, classes):
+    global LOCK_N, LOCK_REQS, LOCK_RANK, LOCK_DIR
+    from verif.core import scratch_root
+    LOCK_N = ck.q(7, 9)
+    vers = LOCK_VERS[:LOCK_N]
+    P = [parse_version(v) for v in vers]
+    LOCK_RANK = [sum(1 for q in P if sem_cmp(q, p) < 0) for p in P]
+    ck.require(sorted(LOCK_RANK) == list(range(LOCK_N)), 'lock versions are not strictly ordered')
+    LOCK_DIR = os.path.join(scratch_root(), 'c20lock')
+    texts = ['', '*'] + [c.text for c in (COMPS or comparators_of(ck))] + [r for r in DEP_REQS if ',' in r]
+    seen = set()
+    LOCK_REQS = []
+    for t in texts:
+        if t not in seen:
+            seen.add(t)
+            LOCK_REQS.append((t,) + ref_masks(t, vers))
+    tot, listed = {}, {}
+    for out, cnt, st in pmap(lock_worker, range(1, 1 << LOCK_N), chunksize=2):
+        for k, v in st.items():
+            tot[k] = tot.get(k, 0) + v
+        nl = {}
+        for key, what, order, text in out:
+            nl[key] = nl.get(key, 0) + 1
+            report_family(ck, listed, key, what, {'kind': 'lock', 'versions': vers, 'order': order, 'req': text})
+        for key, n in cnt.items():
+            if n > nl.get(key, 0):
+                report_family(ck, {key: 10 ** 9}, key, '', {}, n - nl.get(key, 0))
+    ck.part('lock_resolution', versions=vers, requirements=len(LOCK_REQS), subsets=(1 << LOCK_N) - 1, lock_files=tot['locks'], cases=tot['cases'],
+            skipped_unspecified_cases=tot['skipped_cases'], evaluations=tot['evaluations'], cases_resolved=tot['resolved'],
+            cases_nothing_accepted=tot['unresolved'], cases_where_the_newest_version_is_rejected=tot['newest_rejected'],
+            wall_s=round(time.time() - ck.t0, 1))
+    ck.require(tot['resolved'] > 1000 and tot['unresolved'] > 1000 and tot['newest_rejected'] > 1000, 'lock family degenerate')
+    classes.add(('lock', 'resolved', True))
+    classes.add(('lock', 'nothing-accepted', True))
+    classes.add(('lock', 'newest-rejected', True))
+    return tot['evaluations'], tot['skipped_cases']
 
 
 # =====================================================================================================
@@ -1459,8 +1928,41 @@ def part_cfg(ck, classes):
         ck.require(pm['wf'] > 0, 'no mutation stayed well-formed (classifier suspicious)')
         classes.add(('cfg', 'malformed', 'raise'))
 
+    def keyword_positions():
+        # A bare all/any/not where an option name may stand: Cargo's parser rejects it, rustc reads it as an option name; either
+        # reading is accepted (see the unspecified list) - but it is one reading per word, wherever the word stands.
+        ctxs = ['%s', 'not(%s)', 'all(%s)', 'any(%s)', 'all(a, %s)', 'any(%s, a)', 'all(%s, a)', 'not(not(%s))', '%s = "x"', 'not(%s = "x")',
+                'all(a, %s = "x")', 'any(%s = "x", a)', ' %s ', 'not( %s )']
+        n = 0
+        for kw in ('all', 'any', 'not'):
+            seen = {}
+            for ctx in ctxs:
+                text = ctx % kw
+                toks = ref_lex(text, WS_CARGO)[0]
+                alt = ref_parse(toks, False, kwident=True)
+                ck.require(ref_parse(toks, False) is None and alt is not None, 'keyword context %r is not a bare-keyword expression' % text)
+                res = []
+                for c in ({}, {kw: ''}, {kw: 'x'}, {kw: 'x', 'a': ''}, {'a': ''}):
+                    n += 1
+                    r = impl_cfg(text, c)
+                    res.append('rejected' if r[0] == 'raise' else 'name' if r[0] == 'val' and r[1] is ref_eval(alt, c) else 'other')
+                    if res[-1] == 'other':
+                        ck.violation('C20:cfg:keyword-as-name:' + r[0], 'eval_cfg(%r, %r): expected MesonException or %r, observed %r' % (
+                            'cfg(' + text + ')', c, ref_eval(alt, c), r), {'kind': 'cfg', 'expr': text, 'cfgs': c, 'accept': [ref_eval(alt, c), 'raise'],
+                                                                          'observed': list(r)})
+                how = res[0] if len(set(res)) == 1 else 'other'
+                seen.setdefault(how, text)
+                classes.add(('cfg-keyword', kw, how))
+            if 'name' in seen and 'rejected' in seen:
+                ck.violation('C20:cfg:bare-keyword-name-here-error-there', 'the bare word %r is read as an option name in cfg(%s) but makes cfg(%s) '
+                             'malformed' % (kw, seen['name'], seen['rejected']), {'kind': 'cfg-kw', 'word': kw, 'name': seen['name'],
+                                                                                 'rejected': seen['rejected']})
+        ck.part('cfg_bare_keyword_positions', words=3, positions=len(ctxs), evaluations=n)
+        tot['evals'] += n
+
     if ck.want('cfg') or ck.want('cfgtok'):
         token_level()
+        keyword_positions()
     if not (ck.want('cfg') or ck.want('cfgchar')):
         return tot
 
@@ -1559,6 +2061,14 @@ def main():
         t, s = part_req(ck, classes)
         total += t
         skipped += s
+    if ck.want('dep'):
+        t, s = part_dep(ck, classes)
+        total += t
+        skipped += s
+    if ck.want('lock'):
+        t, s = part_lock(ck, classes)
+        total += t
+        skipped += s
     if ck.want('order'):
         total += part_order(ck, classes)
     cfg_wf = cfg_mal = 0
@@ -1645,6 +2155,37 @@ def replay(ck):
                 bad = not (r[0] == 'raise' or (r[0] == 'val' and repr(r[1]) == d['expected'][18:]))
             else:
                 bad = not (r[0] == 'val' and r[1] is d['expected'])
+    elif kind == 'dep':
+        ops = [tuple(o) for o in d['ops']]
+        res, _, log = dep_run(d['form'], d['initial'], ops)
+        print('%s dependency with requirement %r' % (d['form'], d['initial']))
+        for line in log:
+            print('  ' + line)
+        for step, key, text in res:
+            print('  step %d [%s]: %s' % (step + 1, key, text))
+        bad = bool(res)
+    elif kind == 'lock':
+        global LOCK_N, LOCK_RANK, LOCK_DIR
+        from verif.core import scratch_root
+        ck.require(d['versions'] == LOCK_VERS[:len(d['versions'])], 'version list of the recorded case is not the one of this check')
+        LOCK_N = len(d['versions'])
+        P = [parse_version(v) for v in d['versions']]
+        LOCK_RANK = [sum(1 for q in P if sem_cmp(q, p) < 0) for p in P]
+        LOCK_DIR = os.path.join(scratch_root(), 'c20lock')
+        acc, spec = ref_masks(d['req'], d['versions'])
+        res, _, log = lock_case(load_lock(d['order'], 'replay'), d['order'], d['req'], acc, spec)
+        print('Cargo.lock with foo %s, requirement %r' % ([d['versions'][k] for k in d['order']], d['req']))
+        for line in log:
+            print('  ' + line)
+        for key, text in res:
+            print('  [%s]: %s' % (key, text))
+        bad = bool(res)
+    elif kind == 'cfg-kw':
+        cs = [{}, {d['word']: ''}, {d['word']: 'x'}]
+        ra = [impl_cfg(d['name'], c) for c in cs]
+        rb = [impl_cfg(d['rejected'], c) for c in cs]
+        print('cfg(%s): %r ; cfg(%s): %r' % (d['name'], ra, d['rejected'], rb))
+        bad = {r[0] for r in ra} == {'val'} and {r[0] for r in rb} == {'raise'}
     elif kind == 'cfg-ws':
         ra = [impl_cfg(d['evaluated'], c)[0] for c in CFGS]
         rb = [impl_cfg(d['rejected'], c)[0] for c in CFGS]
